@@ -49,6 +49,16 @@ AtomicMove<SlotType, BUFFER_SIZE> {
         // if !BUFFER_SIZE.is_power_of_two() {
         //     panic!("FullSyncMeta: BUFFER_SIZE must be a power of 2, but {BUFFER_SIZE} was provided.");
         // }
+        #[cfg(feature = "verif")]
+        if let Some(origin) = crate::verif::sequence_origin() {
+            return Self {
+                head:                 CachePadded::new(AtomicU32::new(origin)),
+                tail:                 CachePadded::new(AtomicU32::new(origin)),
+                dequeuer_head:        CachePadded::new(AtomicU32::new(origin)),
+                enqueuer_tail:        CachePadded::new(AtomicU32::new(origin)),
+                buffer:               UnsafeCell::new(Box::pin([0; BUFFER_SIZE].map(|_| ManuallyDrop::new(slot_initializer())))),
+            }
+        }
         Self {
             head:                 CachePadded::new(AtomicU32::new(0)),
             tail:                 CachePadded::new(AtomicU32::new(0)),
@@ -99,6 +109,7 @@ AtomicMove<SlotType, BUFFER_SIZE> {
 
     #[inline(always)]
     fn available_elements_count(&self) -> usize {
+        #[cfg(feature = "verif")] crate::verif::point(crate::verif::AM_LEN_QUERY);
         self.tail.load(Relaxed).overflowing_sub(self.head.load(Relaxed)).0 as usize
     }
 
@@ -178,6 +189,7 @@ AtomicMove<SlotType, BUFFER_SIZE> {
     pub fn leak_slot_internal(&self, report_full_fn: impl Fn() -> bool) -> Option<(&mut SlotType, /*slot_id:*/ u32, /*len_before:*/ u32)> {
         let mutable_buffer = unsafe { &mut * (self.buffer.get() as *mut Box<[SlotType; BUFFER_SIZE]>) };
         let mut slot_id = self.enqueuer_tail.fetch_add(1, Relaxed);
+        #[cfg(feature = "verif")] crate::verif::point(crate::verif::AM_LEAK_AFTER_RESERVE);
         let mut len_before;
         loop {
             let head = self.head.load(Relaxed);
@@ -187,6 +199,7 @@ AtomicMove<SlotType, BUFFER_SIZE> {
                 break unsafe { Some( (mutable_buffer.get_unchecked_mut(slot_id as usize % BUFFER_SIZE), slot_id, len_before) ) }
             } else {
                 // queue is full: reestablish the correct `enqueuer_tail` (receding it to its original value)
+                #[cfg(feature = "verif")] crate::verif::point(crate::verif::AM_LEAK_FULL_BEFORE_RECEDE);
                 if self.try_unleak_slot_internal(slot_id) {
                     // report the queue is full (allowing a retry) if the method says we recovered from the condition
                     if report_full_fn() {
@@ -195,6 +208,7 @@ AtomicMove<SlotType, BUFFER_SIZE> {
                         return None;
                     }
                 }
+                #[cfg(feature = "verif")] crate::verif::spin(crate::verif::AM_LEAK_RECEDE_FAILED);
             }
         }
     }
@@ -211,7 +225,9 @@ AtomicMove<SlotType, BUFFER_SIZE> {
     ///            (probably using `tokio::sync::yield_now().await`)
     #[inline(always)]
     pub fn publish_leaked_internal(&'a self, slot_id: u32) {
+        #[cfg(feature = "verif")] crate::verif::point(crate::verif::AM_PUBLISH_BEFORE);
         while !self.try_publish_leaked_internal(slot_id) {
+            #[cfg(feature = "verif")] crate::verif::spin(crate::verif::AM_PUBLISH_SPIN);
             relaxed_wait();
         }
     }
@@ -232,6 +248,7 @@ AtomicMove<SlotType, BUFFER_SIZE> {
     /// Returns the available elements for consumption after the operation completes, or `None` if you should retry the operation.
     #[inline(always)]
     pub fn try_publish_leaked_internal_index(&'a self, slot_index: u32) -> Option<NonZeroU32> {
+        #[cfg(feature = "verif")] crate::verif::point(crate::verif::AM_PUBLISH_INDEX_BEFORE);
         let mut slot_id = slot_index;
         loop {
             match self.tail.compare_exchange_weak(slot_id, slot_id.overflowing_add(1).0, Release, Relaxed) {
@@ -268,6 +285,7 @@ AtomicMove<SlotType, BUFFER_SIZE> {
     /// instead of an id (that may get any value)
     #[inline(always)]
     pub fn try_unleak_slot_index_internal(&'a self, slot_index: u32) -> bool {
+        #[cfg(feature = "verif")] crate::verif::point(crate::verif::AM_UNLEAK_INDEX_BEFORE);
         let mut slot_id = slot_index;
         loop {
             match self.enqueuer_tail.compare_exchange_weak(slot_id.overflowing_add(1).0, slot_id, Release, Relaxed) {
@@ -295,6 +313,7 @@ AtomicMove<SlotType, BUFFER_SIZE> {
         let mutable_buffer = unsafe { &mut * (self.buffer.get() as *mut Box<[SlotType; BUFFER_SIZE]>) };
 
         let mut slot_id = self.dequeuer_head.fetch_add(1, Relaxed);
+        #[cfg(feature = "verif")] crate::verif::point(crate::verif::AM_CONSUME_AFTER_RESERVE);
         let mut len_before;
         loop {
             let tail = self.tail.load(Relaxed);
@@ -305,6 +324,7 @@ AtomicMove<SlotType, BUFFER_SIZE> {
                 break Some( (slot_value, slot_id, len_before) )
             } else {
                 // queue is empty: reestablish the correct `dequeuer_head` (receding it to its original value)
+                #[cfg(feature = "verif")] crate::verif::point(crate::verif::AM_CONSUME_EMPTY_BEFORE_RECEDE);
                 match self.dequeuer_head.compare_exchange_weak(slot_id.overflowing_add(1).0, slot_id, Relaxed, Relaxed) {
                     Ok(_) => {
                         if !report_empty_fn() {
@@ -314,6 +334,7 @@ AtomicMove<SlotType, BUFFER_SIZE> {
                         }
                     },
                     Err(_reloaded_dequeuer_head) => {
+                        #[cfg(feature = "verif")] crate::verif::spin(crate::verif::AM_CONSUME_RECEDE_FAILED);
                         relaxed_wait();
                     }
                 }
@@ -325,10 +346,12 @@ AtomicMove<SlotType, BUFFER_SIZE> {
     /// after the referenced data has been processed (aka, consumed)
     #[inline(always)]
     pub fn release_leaked_internal(&self, slot_id: u32) {
+        #[cfg(feature = "verif")] crate::verif::point(crate::verif::AM_CONSUME_AFTER_READ);
         loop {
             match self.head.compare_exchange_weak(slot_id, slot_id.overflowing_add(1).0, Relaxed, Relaxed) {
                 Ok(_) => break,
                 Err(_reloaded_head) => {
+                    #[cfg(feature = "verif")] crate::verif::spin(crate::verif::AM_RELEASE_SPIN);
                     relaxed_wait();
                 }
             }
